@@ -82,7 +82,7 @@ def coverage(
         The amount of code used by at least one platform, as a percentage.
         If `setmap` contains no lines of code or no platforms, returns NaN.
     """
-    if not platforms:
+    if platforms is None:
         platforms = set().union(*setmap.keys())
 
     if len(platforms) == 0:
@@ -127,7 +127,7 @@ def average_coverage(
         The average amount of code used by each platform, as a percentage.
         If `setmap` contains no lines of code or no platforms, returns NaN.
     """
-    if not platforms:
+    if platforms is None:
         platforms = set().union(*setmap.keys())
 
     if len(platforms) == 0:
